@@ -93,7 +93,7 @@ func c12Oracle(c ev.Case) Res {
 				if va != vb && fa != "sos" && fa != "s&s" {
 					return fail("inside %s (%s): fingerprint %q, verdict %v vs %v for the embedded reading", q.ch, modeName(q.flag|d), fa, va, vb)
 				}
-				if sa != sb {
+				if sa.Tokens != sb.Tokens || (sa.DDX != 0) != (sb.DDX != 0) || (sa.Hash != 0) != (sb.Hash != 0) {
 					return fail("inside %s (%s): statistics %+v vs %+v for the embedded reading", q.ch, modeName(q.flag|d), sa, sb)
 				}
 				if fa != "X" {
